@@ -10,7 +10,7 @@
    g_extra_debuginfo_lookup, g_binary_lookup, g_moz_lookup, g_join_rel_enc.  C17/Tie.v proves them equal to
    C17/Model.v; this file does not depend on that proof, so a checkout whose source compiles to a DIFFERENT model is
    still compared with its own code. *)
-From RM Require Import C17.Model C17.Prims C17.IdModel Gen.C17Lookup.
+From RM Require Import C17.Model C17.Prims C17.IdModel C17.PathModel Gen.C17Lookup.
 Open Scope Z_scope.
 
 Definition mk_module (code_file : str) (debug_file dbg_id code_id : option str) : module_view :=
@@ -37,6 +37,18 @@ Definition lookup_eqb (a b : option file_lookup) : bool :=
   end.
 Definition tag_opt (o : option str) : Z * str :=
   match o with Some p => (1, p) | None => (0, []) end.
+
+(* std::path on ROOT.join(rel) and its parent(), as component lists after ROOT's components (C17/PathModel.v);
+   None: ROOT's components are not in front, or there is no parent.  ROOT = "/verif-root/symbols" (harness) *)
+Definition obs_root : str := [47;118;101;114;105;102;45;114;111;111;116;47;115;121;109;98;111;108;115].
+Definition after_root (l : list str) : option (list str) :=
+  let r := posix_comps obs_root in
+  if comps_prefix r l then Some (skipn (length r) l) else None.
+Definition path_obs (rel : str) : option (list str) * option (list str) :=
+  let j := posix_comps (posix_join obs_root rel) in
+  (after_root j, match path_parent j with Some p => after_root p | None => None end).
+Definition run_case_obs (fields : list (Z * str)) : list (option (option (list str) * option (list str))) :=
+  map (fun f => if fst f =? 1 then Some (path_obs (snd f)) else None) (firstn 8 fields).
 
 Definition run_case (code_file : str) (debug_file did_raw cid_raw : option str) : list (Z * str) :=
   let dbg_id := option_map render_breakpad did_raw in
